@@ -235,7 +235,8 @@ class C12(object):
             rec.violate('rhs_not_an_expression', {'history': h, 'after_term': j, 'rhs': rhs, 'err': repr(e)})
             return False
         s = str(eq)
-        if not s.startswith('v=' + rhs):
+        # the exact layout of str(Equation) is not part of the property: only that it shows this left- and right-hand side
+        if not s.replace(' ', '').startswith('v=' + rhs.replace(' ', '')):
             rec.violate('str_inconsistent', {'history': h, 'after_term': j, 'rhs': rhs, 'str': s})
             return False
         for i, e in enumerate(envs):
